@@ -171,6 +171,11 @@ def gen_op(tp, st, inner=False):
                 return ['bfile', 'write', b, tp.choice([-1, 256]),
                         tp.choice([0, 32]), bool(tp.draw(2))]
             if j == 3:
+                if tp.draw(2):
+                    # read_channel with its default channel list (none) or
+                    # with some channels
+                    return ['bfile', 'readch', b,
+                            tp.choice([None, [0], [1, 0]])]
                 return ['bfile', 'close', b]
             if j == 4 and len(st['buf']) > 1:
                 return ['bfile', 'copy', b, tp.choice(st['buf']),
@@ -732,6 +737,7 @@ def run_world(case, tape, ctx, w):
                     'read': lambda: b.read(path),
                     'write': lambda: b.write(path),
                     'close': lambda: b.close(),
+                    'readch': lambda: b.read_channel(path),
                     'copy': lambda: b.copy_data(d),
                     'normalize': lambda: b.normalize(),
                     'sine1': lambda: b.sine1([1])}
@@ -765,6 +771,17 @@ def run_world(case, tape, ctx, w):
             if sub == 'close':
                 b.close()
                 return [('m', ['/b_close', num, 0])]
+            if sub == 'readch':
+                # /b_readChannel bufnum path fileStart numFrames bufStart
+                # leaveOpen [channel ...] completion
+                if op[3] is None:
+                    b.read_channel(path)
+                else:
+                    b.read_channel(path, channels=list(op[3]))
+                q = ['/b_query', num]
+                return [('m', ['/b_readChannel', num, path, 0, -1, 0, 0]
+                         + list(op[3] or [])
+                         + [osc.encode_message(q[0], q[1:]) if rt else q])]
             if sub == 'copy':
                 d = real.get(op[3])
                 if d is None or not model[op[3]]['live']:
